@@ -224,7 +224,7 @@ func runC05(c *fw.Ctx) {
 		c05Pinned(p, i)
 		c.Distinct(p.input())
 	})
-	c.Cases("programs", c.N(1500, 60000), false, func(i int, r *rng.R) {
+	c.Cases("programs", c.N(1500, 150000), false, func(i int, r *rng.R) {
 		p := &prog{c: c, r: r, h: &model.Heap{}}
 		guard(c, p.input, func() {
 			c05Program(p, steps)
